@@ -31,6 +31,8 @@
 //!   R14 (with R10h) `V.into_iter().rev()` -> `verif_rev_vec(V)`
 //!   R21 (`//@name_call METHOD K` + ghost text) the K-th call `X.METHOD(.., CLOSURE)` is evaluated in front of its statement with the closure and the result bound to names
 //!   R20 an item (nested fn) declared inside the extracted body is dropped from the body text
+//!   R19d (`lower=fold_axis`) `X.fold_axis(ax, init, |acc, elem| BLOCK)` -> per lane, an accumulator cloned from init threaded through the lane
+//!   R19c (`lower=map_axis_mut`) `X.map_axis_mut(ax, |lane| EXPR)` -> loop over lane positions storing EXPR as result j
 //!   R19 / R19b (`//@extract .. lower=fold,for_each`) `X.fold(init, |acc, item| BLOCK)` / `X.for_each(|item| BLOCK)` -> loops over the visited items
 //!   R18 (`//@replace_text` + FROM line + TO line) the unique occurrence of the text FROM (modulo whitespace) -> TO
 //!   R17 (`//@rename_call FROM TO`) method calls `.FROM(..)` -> `.TO(..)`
@@ -335,6 +337,11 @@ struct BodyScan {
     lane_loops: BTreeMap<usize, usize>,
     // R19 loops: the body block is generated around the closure's block (loop_start goes inside the closure's block)
     fold_loops: std::collections::BTreeSet<usize>,
+    // lowered loops whose body is an expression of the source (not a block): `loop_start` goes in front of it
+    expr_body_loops: std::collections::BTreeSet<usize>,
+    // R19d: outer loop ordinal -> offset of the end of the closure's block (anchors `loop_tail` / `after_loop` of the outer loop)
+    outer_fold_axis: BTreeMap<usize, usize>,
+    outer_fold_axis_start: BTreeMap<usize, usize>,
     // calls by name: (enclosing stmt)
     calls: BTreeMap<String, Vec<StmtInfo>>,
     lets: BTreeMap<String, Vec<StmtInfo>>,
@@ -829,6 +836,74 @@ impl<'a, 'ast> Visit<'ast> for Scanner<'a> {
                 }
             }
         }
+        // R19d (opt-in `lower=fold_axis`): `X.fold_axis(AX, INIT, |acc, elem| BLOCK)` -> for every lane (each once, unspecified order) an
+        // accumulator starting from a clone of INIT is threaded through the elements of the lane in axis order:
+        //   { let __lz = verif_lane_order1(X.verif_ref(), AX); let ghost __lzs = __lz@; let mut __res = verif_lane_results(X.verif_ref(), AX);
+        //     for __j in it: __lz <contract n> { let __lane = X.verif_lane_items(AX, __j); let ghost __lis = __lane@; let mut __a = verif_init_copy(&INIT);
+        //        for elem in it2: __lane <contract n+1> { let __n = { let acc = &__a; BLOCK }; __a = __n; <loop_end n+1> }
+        //        __res.verif_put(__j, __a); <loop_tail n> } <after_loop n> __res.verif_finish() }
+        if self.lower.contains("fold_axis") && c.method == "fold_axis" && c.args.len() == 3 {
+            if let syn::Expr::Closure(cl) = &c.args[2] {
+                if cl.inputs.len() == 2 && matches!(&*cl.body, syn::Expr::Block(_)) {
+                    let (a, _) = self.src.range(c.span());
+                    let (_, ce) = self.src.range(c.span());
+                    let (bs, be) = self.src.range(cl.body.span());
+                    let recv = self.text(c.receiver.span()).trim().to_string();
+                    let ax = self.text(c.args[0].span()).trim().to_string();
+                    let init = self.text(c.args[1].span()).trim().to_string();
+                    let p_acc = self.text(cl.inputs[0].span()).to_string();
+                    let p_item = self.text(cl.inputs[1].span()).to_string();
+                    self.scan.rewrites.push((a, a, format!("{{ let __lz = verif_lane_order1({r}.verif_ref(), {ax}); let ghost __lzs = __lz@; let mut __res = verif_lane_results({r}.verif_ref(), {ax}); for __j in it: __lz ", r = recv, ax = ax), "R19d".into()));
+                    let (cs, _) = self.src.range(cl.span());
+                    self.scan.rewrites.push((a, cs, format!("{{ let __lane = {r}.verif_lane_items({ax}, __j); let ghost __lis = __lane@; let mut __a = verif_init_copy(&{init});", r = recv, ax = ax, init = init), "R19d".into()));
+                    self.scan.rewrites.push((cs, bs, format!(" for {item} in it2: __lane ", item = p_item), "R19d".into()));
+                    self.scan.outer_fold_axis_start.insert(self.scan.loops.len(), cs);
+                    self.scan.rewrites.push((bs, bs, format!("{{ let __n = {{ let {} = &__a; ", p_acc), "R19d-late".into()));
+                    self.scan.rewrites.push((be, be, " }; __a = __n;".to_string(), "R19d".into()));
+                    self.scan.rewrites.push((be, be, " } __res.verif_put(__j, __a);".to_string(), "R19d-late".into()));
+                    self.scan.rewrites.push((be, be, " }".to_string(), "R19d-late2".into()));
+                    self.scan.rewrites.push((be, ce, " __res.verif_finish() }".to_string(), "R19d".into()));
+                    let (s0, e0) = self.src.range(c.span());
+                    // outer loop (ordinal n): contract at `a`; inner loop (n + 1): contract at the closure's block
+                    self.scan.loops.push((a, be, s0, e0));
+                    self.scan.outer_fold_axis.insert(self.scan.loops.len() - 1, be);
+                    self.scan.loops.push((bs, be, s0, e0));
+                    self.scan.fold_loops.insert(self.scan.loops.len() - 1);
+                    self.record_call("verif_lane_order1".into());
+                    syn::visit::visit_expr(self, &cl.body);
+                    return;
+                }
+            }
+        }
+        // R19c (opt-in `lower=map_axis_mut`): `X.map_axis_mut(AX, |lane| EXPR)` -> a loop over the lane positions (each once,
+        // unspecified order) that hands lane j to EXPR and stores the value as result j:
+        //   { let __lz = verif_lane_order1(X.verif_ref(), AX); let ghost __lzs = __lz@; let mut __res = verif_lane_results(X.verif_ref(), AX);
+        //     for __j in it: __lz <contract> { let lane = X.verif_take_lane(AX, __j); let __v = EXPR; __res.verif_put(__j, __v); } __res.verif_finish() }
+        if self.lower.contains("map_axis_mut") && c.method == "map_axis_mut" && c.args.len() == 2 {
+            if let syn::Expr::Closure(cl) = &c.args[1] {
+                if cl.inputs.len() == 1 {
+                    let (a, _) = self.src.range(c.span());
+                    let (_, ce) = self.src.range(c.span());
+                    let (bs, be) = self.src.range(cl.body.span());
+                    let recv = self.text(c.receiver.span()).trim().to_string();
+                    let ax = self.text(c.args[0].span()).trim().to_string();
+                    let p_lane = self.text(cl.inputs[0].span()).to_string();
+                    self.scan.rewrites.push((a, bs, format!("{{ let __lz = verif_lane_order1({r}.verif_ref(), {ax}); let ghost __lzs = __lz@; let mut __res = verif_lane_results({r}.verif_ref(), {ax}); for __j in it: __lz ", r = recv, ax = ax), "R19c".into()));
+                    self.scan.rewrites.push((bs, bs, format!("{{ let {} = {}.verif_take_lane({}, __j);", p_lane, recv, ax), "R19c-late".into()));
+                    self.scan.rewrites.push((bs, bs, " let __v = ".to_string(), "R19c-late2".into()));
+                    self.scan.expr_body_loops.insert(self.scan.loops.len());
+                    self.scan.rewrites.push((be, be, "; __res.verif_put(__j, __v);".to_string(), "R19c".into()));
+                    self.scan.rewrites.push((be, be, " }".to_string(), "R19c-late".into()));
+                    self.scan.rewrites.push((be, ce, " __res.verif_finish() }".to_string(), "R19c".into()));
+                    let (s0, e0) = self.src.range(c.span());
+                    self.scan.loops.push((bs, be, s0, e0));
+                    self.scan.fold_loops.insert(self.scan.loops.len() - 1);
+                    self.record_call("verif_lane_order1".into());
+                    syn::visit::visit_expr(self, &cl.body);
+                    return;
+                }
+            }
+        }
         // R19b (opt-in `lower=for_each`): `RECV.for_each(|item| BLOCK)` -> `let __fo = verif_fold_items(RECV); let ghost __fos = __fo@; for item in it: __fo BLOCK`
         if self.lower.contains("for_each") && c.method == "for_each" && c.args.len() == 1 {
             if let syn::Expr::Closure(cl) = &c.args[0] {
@@ -1045,8 +1120,8 @@ fn main() {
                 let mut seq = 0usize;
                 for (a, b, t, rule) in &scan.rewrites {
                     // "-late" insertions come after the template's own insertions at the same offset (loop contracts, ghost code)
-                    let sq = if rule.ends_with("-late") { seq + 1_000_000 } else { seq };
-                    edits.push((*a, *b, sq, t.clone(), json!({"kind": "rewrite", "rule": rule.trim_end_matches("-late"), "fn": id, "tags": body_tags, "src_file": file, "src_line": src.line_of(*a)})));
+                    let sq = if rule.ends_with("-late2") { seq + 3_000_000 } else if rule.ends_with("-late") { seq + 1_000_000 } else { seq };
+                    edits.push((*a, *b, sq, t.clone(), json!({"kind": "rewrite", "rule": rule.trim_end_matches("-late2").trim_end_matches("-late"), "fn": id, "tags": body_tags, "src_file": file, "src_line": src.line_of(*a)})));
                     seq += 1;
                 }
                 let mut sig_sec = None;
@@ -1226,7 +1301,20 @@ fn main() {
                                 "loop_start" => {
                                     let n: usize = s.args.get(1).and_then(|x| x.parse().ok()).unwrap_or_else(|| die(4, "loop anchor needs ordinal".into()));
                                     let lp = scan.loops.get(n).unwrap_or_else(|| die(3, format!("lost-anchor: loop {} of {} not found", n, id)));
-                                    edits.push((lp.0 + 1, lp.0 + 1, seq + 1000, format!("\n{}\n", s.text), meta));
+                                    if let Some(at) = scan.outer_fold_axis_start.get(&n) {
+                                        // R19d outer loop: after the accumulator of the lane has been initialised, before the inner loop
+                                        edits.push((*at, *at, seq, format!("\n{}\n", s.text), meta));
+                                    } else if scan.expr_body_loops.contains(&n) {
+                                        edits.push((lp.0, lp.0, seq + 2_000_000, format!("\n{}\n", s.text), meta));
+                                    } else {
+                                        edits.push((lp.0 + 1, lp.0 + 1, seq + 1000, format!("\n{}\n", s.text), meta));
+                                    }
+                                }
+                                "loop_tail" if s.args.get(1).and_then(|x| x.parse::<usize>().ok()).map(|n| scan.outer_fold_axis.contains_key(&n)).unwrap_or(false) => {
+                                    // R19d outer loop: after the result of the lane has been stored
+                                    let n: usize = s.args[1].parse().unwrap();
+                                    let at = scan.outer_fold_axis[&n];
+                                    edits.push((at, at, seq + 2_000_000, format!("\n{}\n", s.text), meta));
                                 }
                                 "loop_tail" => {
                                     // R11c loops only: after the lanes have been put back, before the end of the iteration
@@ -1239,7 +1327,9 @@ fn main() {
                                     let lp = scan.loops.get(n).unwrap_or_else(|| die(3, format!("lost-anchor: loop {} of {} not found", n, id)));
                                     let at = match what { "before_loop" => lp.2, "after_loop" => lp.3, _ => lp.1 };
                                     let semi = if what == "loop_end" && scan.loop_tail_nosemi.contains(&n) { ";" } else { "" };
-                                    if what == "after_loop" && scan.fold_loops.contains(&n) {
+                                    if what == "after_loop" && scan.outer_fold_axis.contains_key(&n) {
+                                        edits.push((lp.1, lp.1, seq + 4_000_000, format!("\n{}\n", s.text), meta));
+                                    } else if what == "after_loop" && scan.fold_loops.contains(&n) {
                                         // R19: inside the generated block, after the loop and before the accumulator is returned
                                         edits.push((lp.1, lp.1, seq + 2_000_000, format!("\n{}\n", s.text), meta));
                                     } else {
